@@ -82,6 +82,7 @@ fn long_digits() -> BoxedStrategy<String> {
 fn base_tokens() -> BoxedStrategy<Vec<String>> {
     prop_oneof![
         8 => vergen::tokens(8),
+        1 => prop::collection::vec(vergen::token(), 20..60),
         2 => (vergen::tokens(4), arbitrary_text(), any::<u16>()).prop_map(|(mut v, t, s)| { let k = idx(s, v.len() + 1); v.insert(k, t); v }),
         2 => (vergen::tokens(4), long_digits(), any::<u16>()).prop_map(|(mut v, t, s)| { let k = idx(s, v.len() + 1); v.insert(k, t); v }),
         1 => arbitrary_text().prop_map(|t| vec![t]),
